@@ -43,7 +43,8 @@ def _case(draw, kind):
     case = {'series': series, 'ndim': ndim, 'block': draw(c06.block_strategy(n)),
             'window': draw(st.one_of(st.none(), st.integers(1, 4))), 'penalty': draw(st.sampled_from([None, 0.5])),
             'inner': draw(st.sampled_from(gen.INNER_NAMES)),
-            'container': 'matrix' if (eq and draw(st.booleans())) else 'list'}
+            'container': draw(st.sampled_from(['matrix', 'matrix', 'matrix-F', 'list', 'list-strided'])) if eq
+            else draw(st.sampled_from(['list', 'list', 'list-strided']))}
     m = min(len(x) for x in series) - 1
     case['psi'] = None
     if m >= 1 and draw(st.booleans()):
@@ -69,7 +70,8 @@ def _call_child(case, parallel, use_c, use_mp, **extra):
           'window': case['window'], 'penalty': case['penalty'], 'inner_dist': case['inner'], 'psi': case.get('psi')}
     if nd > 1:
         kw['ndim'] = nd
-    cont = {'0': 'ndarray' if case['container'] == 'matrix' else 'list-ndarray'}
+    cont = {'0': {'matrix': 'ndarray', 'matrix-F': 'ndarray-F', 'list-strided': 'list-strided'}.get(case['container'],
+                                                                                                  'list-ndarray')}
     return ch.call(fn, [case['series']], kw, cont, **extra)
 
 
